@@ -90,22 +90,24 @@ Agree(L) ==
 (***************************************************************************)
 (* Scenarios                                                               *)
 (***************************************************************************)
-\* "prod": ALL old/new combinations of a few interacting keys at once (not only 1- and 2-key variations)
-ProdKeys == IF PLDepth = "full"
-            THEN <<"users_default", "users.bob", "users.alice", "events_default", "events.msg">>
-            ELSE <<"users_default", "users.bob", "users.alice">>
-ProdVals == IF PLDepth = "full" THEN {Absent, 2, 4} ELSE {Absent, 1, 2, 4}
+\* "prod": ALL old/new combinations of three interacting keys at once (not only 1- and 2-key variations):
+\* the users triple (default, somebody else, the sender) and, in depth "full", the events triple as well
+ProdKeySets == IF PLDepth = "full"
+               THEN {<<"users_default", "users.bob", "users.alice">>, <<"events_default", "state_default", "events.msg">>}
+               ELSE {<<"users_default", "users.bob", "users.alice">>}
+ProdVals == {Absent, 1, 2, 4}
 
-RECURSIVE SetKeys(_, _, _)
-SetKeys(c, f, i) == IF i = 0 THEN c ELSE SetKeys(SetKey(c, ProdKeys[i], f[i]), f, i - 1)
+RECURSIVE SetKeys(_, _, _, _)
+SetKeys(c, keys, f, i) == IF i = 0 THEN c ELSE SetKeys(SetKey(c, keys[i], f[i]), keys, f, i - 1)
 
 InitProd ==
-    \E o \in [1..Len(ProdKeys) -> ProdVals], n \in [1..Len(ProdKeys) -> ProdVals], haspl \in BOOLEAN :
-       /\ (~haspl => \A i \in 1..Len(ProdKeys) : o[i] = Absent)
+    \E keys \in ProdKeySets :
+    \E o \in [1..3 -> ProdVals], n \in [1..3 -> ProdVals], haspl \in BOOLEAN :
+       /\ (~haspl => \A i \in 1..3 : o[i] = Absent)
        /\ st = LET s0 == WithMem(WithMem(BaseSt, "alice", "join"), "creator", "join")
-               IN IF haspl THEN WithPL(s0, SetKeys([EmptyPL EXCEPT !.users["creator"] = 4], o, Len(ProdKeys))) ELSE s0
+               IN IF haspl THEN WithPL(s0, SetKeys([EmptyPL EXCEPT !.users["creator"] = 4, !.users["alice"] = 3], keys, o, 3)) ELSE s0
        /\ \E sender \in {"alice", "creator"}, cu \in {Absent, 4} :
-             ev = [PLEv(SetKeys([EmptyPL EXCEPT !.users["creator"] = cu], n, Len(ProdKeys))) EXCEPT !.sender = sender]
+             ev = [PLEv(SetKeys([EmptyPL EXCEPT !.users["creator"] = cu, !.users["alice"] = 3], keys, n, 3)) EXCEPT !.sender = sender]
 
 BInit ==
     IF Family = "prod"
